@@ -103,11 +103,12 @@ Section Frag.
         | AForceQuit => None
         | ANewLoop sp =>
           let '(sg, s1) := new_signal s sp in
-          if negb (force_quit s1) && run_loop s1 && has_handlers s1 (sg_cls sg) then
-            let q := length (qstore s1) in
-            let s2 := s1 <| qstore := qstore s1 ++ [empty_queue] |> <| active := q |>
-                         <| levels := levels s1 ++ [q] |> in
-            let s3 := do_enqueue (emit (ENewLoopEnter q) s2) sg in
+          let q := length (qstore s1) in
+          let s2 := s1 <| qstore := qstore s1 ++ [empty_queue] |> <| active := q |>
+                       <| levels := levels s1 ++ [q] |> in
+          let s2e := emit (ENewLoopEnter q) s2 in
+          if run_loop s1 && enqueue_ok s2e sg then
+            let s3 := do_enqueue s2e sg in
             obind (fexec f CMainloop s3) (fun '(o, s4) =>
             match o with
             | ONormal => Some (ONormal, emit (ENewLoopReturn q) s4)
